@@ -253,7 +253,7 @@ def guarded_inserts(ctx: Ctx):
                             if isinstance(c, ast.Call) and isinstance(c.func, ast.Attribute) and c.func.attr in ("get", "__contains__", "keys") \
                                     and isinstance(c.func.value, ast.Name) and c.func.value.id == reg:
                                 guarded = True
-                ctx.decide(guarded, "R17.1", f"{key}::{norm(n.targets[0])}", "insert guarded by a membership test on the registry",
+                ctx.decide(guarded or None, "R17.1", f"{key}::{norm(n.targets[0])}", "insert guarded by a membership test on the registry",
                            f"`{norm(n)}` is not dominated by a membership test on `{reg}`: a second definition of the same name silently "
                            f"replaces the first while earlier references keep pointing at the old object", where=where(fi, n))
     ctx.stats["registry_inserts"] = sites
@@ -271,12 +271,15 @@ def inheritors_rule(ctx: Ctx):
                 for t in (n.targets if isinstance(n, ast.Assign) else [n.target]):
                     if isinstance(t, ast.Attribute) and t.attr == "inheritors" and fi.name not in ("__init__", "__post_init__"):
                         writers.append((fi, n))
+    from ..callgraph import CallGraph
+    load_closure = CallGraph(prog).closure([LOAD, f"{DEF}::XtcePacketDefinition.__init__"])
     for fi, n in writers:
-        ok = fi.key == f"{DEF}::XtcePacketDefinition._parse_container_set"
+        ok = fi.key in load_closure
         ctx.decide(ok, "R17.3", f"{fi.key}::{norm(n)[:70]}", "inheritor lists are written by the back-population only",
                    f"`{norm(n)[:70]}` changes an inheritor list outside the loader's back-population", where=where(fi, n))
     if not writers:
-        ctx.refuted("R17.3", f"{DEF}::XtcePacketDefinition._parse_container_set::inheritors", "inheritor lists are never populated")
+        ctx.unknown("R17.3", f"{DEF}::XtcePacketDefinition._parse_container_set::inheritors",
+                    "no statement writing an `.inheritors` list recognised (decided by the graph table R17.g)")
     ci = prog.classes.get("SequenceContainer")
     if ci is not None:
         for fname in ("inheritors", "restriction_criteria"):
@@ -326,6 +329,7 @@ SPEC = PropSpec(
     title="A loaded definition is a consistent object graph; broken documents fail at load",
     check=check,
     floors={"R17.g": 7, "R17.c": 20, "R17.1": 4, "R17.3": 3},
+    fallback={"R17.3": ("R17.g",), "R17.1": ("R17.c",)},
     explanation=("The loader is interpreted on the XML model. R17.g: the checker's document (all classes, nested and "
                  "inherited containers) is loaded in five element orders (users before/after what they reference) and the "
                  "resulting object graph is checked by identity: registries keyed by the object's own name, entry lists and "
